@@ -310,18 +310,27 @@
       (black tree1 pivot tree2))
      ((< height1 height2)
       (blacken
+       ;; depth is the black height of tree above that of tree1: go
+       ;; down the left spine to the black node of the same black
+       ;; height (a red node does not count)
        (let loop ((tree tree2) (depth (- height2 height1)))
-     (if (zero? depth)
+     (if (and (zero? depth) (black? tree))
          (balance (red tree1 pivot tree))
          (balance
-          (node (color tree) (loop (left tree) (- depth 1)) (item tree) (right tree)))))))
+          (node (color tree)
+            (loop (left tree) (if (black? tree) (- depth 1) depth))
+            (item tree)
+            (right tree)))))))
      (else
       (blacken
        (let loop ((tree tree1) (depth (- height1 height2)))
-     (if (zero? depth)
+     (if (and (zero? depth) (black? tree))
          (balance (red tree pivot tree2))
          (balance
-          (node (color tree) (left tree) (item tree) (loop (right tree) (- depth 1)))))))))))
+          (node (color tree)
+            (left tree)
+            (item tree)
+            (loop (right tree) (if (black? tree) (- depth 1) depth)))))))))))
 
 (define (tree-split comparator tree obj)
   (let loop ((tree1 (black-leaf))
@@ -371,9 +380,9 @@
     (tree-match tree
       ((black)
        0)
-      ((node red a x b)
+      ((red a x b)
        (loop b))
-      ((node black a x b)
+      ((black a x b)
        (+ 1 (loop b))))))
 
 (define (left-tree tree depth)
